@@ -24,7 +24,7 @@ def rand_word(rng, nbytes):
 def mutate(rng, w):
     cs = list(w)
     for _ in range(rng.choice([0, 1, 1, 2, 2, 3, 4, 6])):
-        op = rng.choice("idstxy")
+        op = rng.choice("idstxyc")
         pos = rng.randrange(len(cs) + 1)
         if op == "i":
             cs.insert(pos, rng.choice("abcxyzé"))
@@ -35,6 +35,10 @@ def mutate(rng, w):
         elif op == "t" and len(cs) >= 2:
             p = min(pos, len(cs) - 2)
             cs[p], cs[p + 1] = cs[p + 1], cs[p]
+        elif op == "c" and cs:
+            # the same letter in the other case (distance 1 like any substitution, 0 for a case-insensitive comparison)
+            q = min(pos, len(cs) - 1)
+            cs[q] = cs[q].swapcase() if cs[q].swapcase() != cs[q] and len(cs[q].swapcase()) == 1 else "Q"
         elif op == "x" and len(cs) >= 2:
             # two letters swapped with a stray letter typed between them: distance 2 for the unrestricted
             # Damerau-Levenshtein distance, 3 for the optimal-string-alignment variant
@@ -99,6 +103,13 @@ def run(ctx, H):
             if d <= len(mb):
                 posm = ctx.rng.sample(range(len(mb)), d)
                 explicit.append((mb, ["".join("_" if i in posm else ch for i, ch in enumerate(mb))]))
+    # ties decided by nothing but the position in the list: candidates at the same distance that differ from the received
+    # string by case, by a separator, by their first letter, by their length
+    for r, cands in (("nAme", ["nome", "name"]), ("nAme", ["name", "nome"]), ("PrimaryKey", ["primaryKeys", "primarykey"]), ("user_name", ["user-name", "username", "user_nam"]),
+                     ("username", ["user_name", "usernam", "usernames"]), ("abcdefgh", ["xbcdefgh", "abcdefgx", "abcdefg", "abcdefghi"]), ("abcdefgh", ["abcdefghi", "abcdefg", "abcdefgx", "xbcdefgh"]),
+                     ("Abcd", ["abcd", "Abce", "Bbcd"]), ("abcd", ["Abcd", "abce", "bbcd"]), ("maxTotalHits", ["maxtotalhits", "maxTotalHit", "MaxTotalHits"])):
+        explicit.append((r, cands))
+        explicit.append((r, list(reversed(cands))))
     eobs = C.run_harness(H.binary, [{"mode": "dym", "received": r, "accepted": acc} for r, acc in explicit])
     erows = ["(%d, (%s, %s, %s))" % (i, C.cstr(r), C.clist([C.cstr(a) for a in acc]), C.cstr(o["dym"]))
              for i, ((r, acc), o) in enumerate(zip(explicit, eobs))]
